@@ -15,6 +15,7 @@ Lemma f5 : tp_plugin_requires_client gen_tls_params = true. Proof. reflexivity. 
 Lemma f6 : tp_plugin_pins_client_cas gen_tls_params = true. Proof. reflexivity. Qed.
 Lemma f7 : tp_broker_serves_with_tls gen_tls_params = true. Proof. reflexivity. Qed.
 Lemma f8 : tp_pools_only_pinned gen_tls_params = true. Proof. reflexivity. Qed.
+Lemma f9 : tp_standard_verification gen_tls_params = true. Proof. reflexivity. Qed.
 
 (* every path (main listener over net/rpc or gRPC, plugin-side and host-side brokered listeners; with
    multiplexing the same configurations run over the yamux streams) has a TLS server configuration that
@@ -42,7 +43,7 @@ Print Assumptions C12_only_legit_served.
 Theorem C12_host_pins_announced : forall announced p s,
   p <> HostBrokered -> client_accepts (client_cfg gen_tls_params announced p) (Some s) = true ->
   exists k, announced = Some k /\ t_own s = Some k.
-Proof. exact (host_pins_announced gen_tls_params f1 f2 f3 f4 f8). Qed.
+Proof. exact (host_pins_announced gen_tls_params f1 f2 f3 f4 f8 f9). Qed.
 
 Theorem C12_no_plaintext_fallback : forall p, p <> HostBrokered -> client_accepts (client_cfg gen_tls_params None p) None = false.
 Proof. intros p Hp. destruct p; try congruence; reflexivity. Qed.
@@ -53,4 +54,19 @@ Theorem C12_legit_pair_accepted : forall p,
   let legit := match p with HostBrokered => TLSCert plugin_key | _ => TLSCert host_key end in
   server_accepts (server_cfg gen_tls_params announced p) legit = true /\
   client_accepts (client_cfg gen_tls_params announced p) (server_cfg gen_tls_params announced p) = true.
-Proof. exact (legit_pair_accepted gen_tls_params f1 f2 f3 f4 f5 f6 f7 f8). Qed.
+Proof. exact (legit_pair_accepted gen_tls_params f1 f2 f3 f4 f5 f6 f7 f8 f9). Qed.
+
+(* the impostor of the property text: it announces the genuine (public) certificate, holds another key, and sends the
+   announced certificate along behind a leaf of its own.  The host refuses it on every path on which the host is the
+   TLS client (main connection over net/rpc and gRPC, dials of plugin-side brokered listeners) *)
+Theorem C12_impostor_with_announced_cert_refused : forall p,
+  p <> HostBrokered -> client_accepts (client_cfg gen_tls_params (Some plugin_key) p) (Some impostor_server) = false.
+Proof. intros p Hp. apply (impostor_refused gen_tls_params f1 f2 f3 f4 f8 f9 (Some plugin_key) p Hp). discriminate. Qed.
+Print Assumptions C12_impostor_with_announced_cert_refused.
+
+(* and this rests on crypto/tls's own verification being in force: a host configuration that switches it off (whatever
+   callback it installs instead is outside the model) admits that impostor *)
+Theorem C12_refuted_verification_off : forall P p,
+  tp_host_cfg_at_start P = true -> tp_standard_verification P = false -> p <> HostBrokered ->
+  client_accepts (client_cfg P (Some plugin_key) p) (Some impostor_server) = true.
+Proof. exact skip_verify_admits_impostor. Qed.
